@@ -559,6 +559,33 @@ def cells(ctx, bits):
                     break
 
 
+NEW_CONSTRUCTS = ("arrlit", "slice", "posname", "posval", "assignposname", "assignposval", "emitf")
+
+
+def constructs_of(x, acc):
+    """tags of the newer constructs occurring in a generated program (for the input-distribution record)"""
+    if isinstance(x, tuple):
+        if x and isinstance(x[0], str):
+            if x[0] in NEW_CONSTRUCTS:
+                acc.add(x[0])
+            if x[0] in ("for1", "for2") and isinstance(x[2 if x[0] == "for1" else 3], tuple) and x[2 if x[0] == "for1" else 3][0] in ("arrlit", "slice"):
+                acc.add("for_over_array")
+            if x[0] == "assign" and x[1][1] in G.ARRL + G.OOSARR and x[2]:
+                acc.add("array_indexed_assign")
+            if x[0] == "unset" and x[1][1] in G.ARRL + G.OOSARR and x[2]:
+                acc.add("array_unset")
+            if x[0] == "local" and len(x) == 2 and x[1] in G.ARRL:
+                acc.add("array_variable")
+        for y in x:
+            constructs_of(y, acc)
+    elif isinstance(x, list):
+        for y in x:
+            constructs_of(y, acc)
+    elif isinstance(x, dict):
+        for y in x.values():
+            constructs_of(y, acc)
+
+
 def correspondence(ctx, bits):
     n = 240 if ctx.tier == "quick" else 4000
     progs = []
@@ -587,6 +614,16 @@ def correspondence(ctx, bits):
     ctx.cov["correspondence"] = {"programs": len(progs), "evaluated": len(terms), "agree": hist[0], "disagree": hist[1],
                                  "model_out_of_fuel_skipped": hist[2], "outside_fragment_skipped": hist[3], "coq_failed": hist[-1]}
     for (c, o), code in zip(meta, codes):
+        acc = set()
+        constructs_of(c["prog"], acc)
+        for tag in acc:
+            ctx.dist("reach_" + tag)
+            if code == 0:
+                ctx.dist("agree_" + tag)
+        if code == 3:
+            ctx.dist("skipped_outside_fragment")
+        if code == 2:
+            ctx.dist("skipped_out_of_fuel")
         ctx.count((c["text"], c["inputs"], c["quiet"]), nontrivial=(code == 0))
         if code == 0 and len(ctx.cov["samples"]) < 4:
             ctx.sample({"program": c["text"], "inputs": c["inputs"], "observed_class": o["class"], "out": str(o.get("out"))[:400]})
